@@ -218,6 +218,64 @@ def MBuf.write (b : MBuf) (data : List Nat) : MBuf × Nat :=
 def MBuf.extend (b : MBuf) (data : List Nat) : MBuf × Nat :=
   ((b.write data).1.setInit (b.write data).2, (b.write data).2)
 
+/-! ### What a read-type operation hands to the kernel
+
+The operations do not call `parts_mut()` but the crate private `BufMut::parts()`
+(traits.rs: default `BufMutParts::Buf` built from `parts_mut()`), and report the
+completion through `buffer_init(id, n)` (default: `set_init(n)`). Only an
+unassigned `ReadBuf` answers `BufMutParts::Pool`: the submission then carries
+`IOSQE_BUFFER_SELECT` and no length, and the kernel may fill a whole pool
+buffer. -/
+
+/-- `BufMutParts`. -/
+inductive KParts where
+  /-- `BufMutParts::Pool`: the kernel selects a pool buffer. -/
+  | select
+  /-- `BufMutParts::Buf { ptr, len }`. -/
+  | region (r : Region)
+  deriving Repr, DecidableEq
+
+/-- `BufMut::parts` (crate private). -/
+def MBuf.kparts : MBuf → KParts
+  -- read_buf.rs:392-401: no buffer yet → `parts_sys()` = `BufMutParts::Pool`.
+  | .pool none => .select
+  -- mod.rs:726-729: forwarded.
+  | .readN i _ => i.kparts
+  -- the default; an assigned `ReadBuf` answers the same pair as `parts_mut()`.
+  | .vec b => .region (MBuf.vec b).partsMut
+  | .pool (some b) => .region (MBuf.pool (some b)).partsMut
+  | .limited i l => .region (MBuf.limited i l).partsMut
+
+/-- `BufMut::buffer_init(id, n)`; `sel` is the pool buffer the kernel selected
+(only looked at by an unassigned `ReadBuf`, read_buf.rs:404-413). -/
+def MBuf.bufferInit : MBuf → Base → Nat → MBuf
+  | .pool none, sel, n => .pool (some { sel with len := n })
+  -- mod.rs:731-735.
+  | .readN i _, sel, n => .readN (i.bufferInit sel n) n
+  -- the default: `set_init(n)`.
+  | .vec b, _, n => (MBuf.vec b).setInit n
+  | .pool (some b), _, n => (MBuf.pool (some b)).setInit n
+  | .limited i l, _, n => (MBuf.limited i l).setInit n
+
+/-- One read into `b` against a kernel that has `data` ready; `cap` is the size
+of the pool's buffers. Returns whether the submission asked for buffer
+selection, how many bytes the kernel may store, the count it returns and the
+buffer afterwards. -/
+def rdp (b : MBuf) (cap : Nat) (data : List Nat) : Bool × Nat × Nat × MBuf :=
+  match b.kparts with
+  | .select =>
+    let k := min data.length cap
+    (true, cap, k, b.bufferInit ⟨0, data.take k ++ List.replicate (cap - k) 238, 0⟩ k)
+  | .region r =>
+    let k := min data.length r.len
+    (false, r.len, k, (b.write (data.take k)).1.bufferInit default k)
+
+/-- The object of `bufs rdp`: a pool `ReadBuf` (unassigned, or holding `pre`)
+under the limits, outermost first. -/
+def rdpObj (cap : Nat) (limits : List Nat) (pre : Option (List Nat)) : MBuf :=
+  limits.foldr (fun l b => MBuf.limited b l)
+    (.pool (pre.map fun p => ⟨0, p ++ List.replicate (cap - p.length) 238, p.length⟩))
+
 /-! ### iovec wrappers (src/unix.rs) -/
 
 /-- `IoSlice::set_len` (unix.rs:81-84): `debug_assert!(iov_len >= new_len)`;
@@ -377,7 +435,9 @@ through the exposed regions), `init <n>` (`set_init`), `ext <hex>`
 (`extend_from_slice`), `wall <k,k,…>` (`write_all` with short writes: the
 regions `SkipBuf` submits), `rdn <n> <hex,hex,…>` (`read_n` with short reads:
 the regions `ReadNBuf` submits), `caps <arr|tup> <c,c,…>` (stateless: empty
-vectors of up to 8 GiB capacity each).
+vectors of up to 8 GiB capacity each), `rdp <cap> <limits> <pre|none> <data>`
+(stateless: one `read` into a pool `ReadBuf` under 0–2 `LimitedBuf`s, concrete
+types: what the crate private `parts()` / `buffer_init()` do).
 
 ```
 trait        buf | mut | slice | mutslice
@@ -678,6 +738,17 @@ def stepLine (st : St) (toks : List String) : St × List String :=
           && caps.all (· ≤ 8589934592) then (st, [lcapsRow caps l])
       else (st, ["bad-op"])
     | _, _ => (st, ["bad-op"])
+  | ["bufs", "rdp", cap, limits, pre, data] =>
+    match decUsize cap, decList decUsize limits,
+        (if pre == "none" then some none else (unhex pre).map some), unhex data with
+    | some cap, some limits, some pre, some data =>
+      if cap ≥ 1 && cap ≤ 65536 && limits.length ≤ 2 && (pre.map (·.length)).getD 0 ≤ cap
+          && data.length ≤ 131072 then
+        let r := rdp (rdpObj cap limits pre) cap data
+        (st, [if r.1 then "sqe=select" else s!"sqe=plain:{r.2.1}",
+              s!"n={r.2.2.1} contents={hex r.2.2.2.content}"])
+      else (st, ["bad-op"])
+    | _, _, _, _ => (st, ["bad-op"])
   | ["bufs", "wall", ks] =>
     match st.obj, decList decUsize ks with
     | .r b, some ks =>
